@@ -408,7 +408,7 @@ def mc_cfgs(prop: str, tier: str) -> list[str]:
 
 
 def check(prop: str, tier: str, seed: int) -> int:
-    run = Run(prop, tier, seed, "model_checking")
+    run = Run(prop, tier, seed, "fault_enumeration" if prop == "C08" else "model_checking")
     run.cov["rule"] = RULE
     run.assumptions = list(ASSUMPTIONS)
     rnd = random.Random(seed)
